@@ -519,7 +519,8 @@ def run_check(plug: Plugin, tier: str, seed: int, level_note=""):
     chk = None
     if tier == "thorough" and not obl["broken"] and os.environ.get("VERIF_NO_COQCHK") != "1":
         # independent re-check of the property file and everything it depends on (runs beside the correspondence)
-        chk = subprocess.Popen(f"timeout 1800 coqchk -o -silent -Q {COQ} Curies Curies.props.{pid}", shell=True,
+        frag_mods = " ".join(f"Curies.gen.FragObl_{g}" for g in (obl.get("source_tie") or {}).get("proved_groups", []))
+        chk = subprocess.Popen(f"timeout 1800 coqchk -o -silent -Q {COQ} Curies Curies.props.{pid} {frag_mods}", shell=True,
                                stdout=subprocess.PIPE, stderr=subprocess.STDOUT, text=True)
     rtv = []
     if tier == "thorough" and os.environ.get("VERIF_NO_RUNTIME_VALIDATION") != "1":
@@ -643,7 +644,7 @@ def run_check(plug: Plugin, tier: str, seed: int, level_note=""):
     if chk is not None:
         out = chk.communicate()[0]
         m_ax = re.search(r"\* Axioms:\s*(.*?)\n\s*\n", out, flags=re.S)
-        coqchk = {"cmd": f"coqchk -o -silent -Q coq Curies Curies.props.{pid}", "rc": chk.returncode,
+        coqchk = {"cmd": f"coqchk -o -silent -Q coq Curies Curies.props.{pid} {frag_mods}".strip(), "rc": chk.returncode,
                   "axioms": m_ax.group(1).strip() if m_ax else None}
         if chk.returncode != 0 or coqchk["axioms"] != "<none>":
             obl["broken"].append(f"coqchk on props/{pid}: rc={chk.returncode} axioms={coqchk['axioms']} " + out[-800:])
